@@ -1,7 +1,7 @@
 CONSTANTS
   Bug = "none"
   Tier = "quick"
-  Dev <- AllDev
+  Dev <- No_scrub_stops_after_overlap
 SPECIFICATION Spec
-INVARIANT WitMiss
+INVARIANT Conf
 CHECK_DEADLOCK FALSE
